@@ -29,6 +29,18 @@ pub struct CrdtSession {
     pub marked_texts: std::collections::BTreeSet<String>,
 }
 
+/// signature of a failed delivery that changed the pending queue: a DuplicateSeqNumber error for an
+/// (actor, seq) that an APPLIED change holds is the known finding D4; the same error for a slot held
+/// only by a QUEUED change (or any other error) is a different violation
+fn dupseq_sig<T>(d: &mut AutoCommit, r: &Result<T, automerge::AutomergeError>, other: &'static str) -> &'static str {
+    match r {
+        Err(automerge::AutomergeError::DuplicateSeqNumber(q, a)) => {
+            if d.get_changes(&[]).iter().any(|c| c.actor_id() == a && c.seq() == *q) { "dupseq-error-prunes-queue" } else { "dupseq-queued-collision-prunes-queue" }
+        }
+        _ => other,
+    }
+}
+
 // ---------- canonical text forms (shared with Lean `Spec.show*`) ----------
 
 pub fn show_actor(a: &ActorId) -> String { hex::encode(a.to_bytes()) }
@@ -341,9 +353,7 @@ fn exec_inner(s: &mut CrdtSession, toks: &[&str], enc: TextEncoding) -> Vec<Stri
                 if before.0 != after.0 || before.1 != after.1 {
                     res.push("! C06 sig=apply-error-changed-state apply_changes returned an error but changed heads or state".to_string());
                 } else if before.2 != after.2 || before.3 != after.3 {
-                    let dup = matches!(r, Err(automerge::AutomergeError::DuplicateSeqNumber(..)));
-                    res.push(format!("! C06 sig={} apply_changes returned an error but changed the pending queue (get_missing_deps / saved orphans differ)",
-                        if dup { "dupseq-error-prunes-queue" } else { "apply-error-changed-queue" }));
+                    res.push(format!("! C06 sig={} apply_changes returned an error but changed the pending queue (get_missing_deps / saved orphans differ)", dupseq_sig(d, &r, "apply-error-changed-queue")));
                 }
             }
             res
@@ -365,7 +375,7 @@ fn exec_inner(s: &mut CrdtSession, toks: &[&str], enc: TextEncoding) -> Vec<Stri
             if r.is_err() {
                 let after = (show_doc(d, None, enc), d.get_heads(), d.get_missing_deps(&[]));
                 if before.0 != after.0 || before.1 != after.1 { res.push("! C06 sig=loadinc-error-changed-state load_incremental returned an error but changed heads or state".to_string()); }
-                else if before.2 != after.2 { res.push(format!("! C06 sig={} load_incremental returned an error but changed the pending queue", if matches!(r, Err(automerge::AutomergeError::DuplicateSeqNumber(..))) { "dupseq-error-prunes-queue" } else { "loadinc-error-changed-queue" })); }
+                else if before.2 != after.2 { res.push(format!("! C06 sig={} load_incremental returned an error but changed the pending queue", dupseq_sig(d, &r, "loadinc-error-changed-queue"))); }
             }
             res
         }
